@@ -5,7 +5,7 @@ CONSTANTS
   Postfixes <- PfFamily
   Configs <- C17Configs
   Seeds = {1, 2}
-  Textures = {"random", "nonuniform", "layout"}
+  Textures = {"random", "nonuniform", "layout", "layoutc"}
   Flows = {"ss_xz", "gen3d"}
   Pars <- C17Pars
   Callbacks = {}
